@@ -363,6 +363,7 @@ Fixpoint mrun_steps (fuel : nat) (cf : mcfg) (cnt : bool) (nkeys : nat) (s : mst
               end
             else if code =? 2 then (mprocess cf s, 0, rest, false)
             else if code =? 6 then (mreopen cf s, 0, rest, true)
+            else if code =? 7 then (mcrash s, 0, rest, true)
             else if code =? 9 then match rest with k :: r => (mlock s k, 0, r, false) | [] => (s, 0, [], false) end
             else if code =? 10 then match rest with k :: r => (munlock s k, 0, r, false) | [] => (s, 0, [], false) end
             else (s, 0, rest, false) in
@@ -387,6 +388,7 @@ Fixpoint mdebug_steps (fuel : nat) (cf : mcfg) (nkeys : nat) (s : mstate) (l : l
               end
             else if code =? 2 then (mprocess cf s, 0, rest)
             else if code =? 6 then (mreopen cf s, 0, rest)
+            else if code =? 7 then (mcrash s, 0, rest)
             else if code =? 9 then match rest with k :: r => (mlock s k, 0, r) | [] => (s, 0, []) end
             else if code =? 10 then match rest with k :: r => (munlock s k, 0, r) | [] => (s, 0, []) end
             else (s, 0, rest) in
